@@ -1560,3 +1560,180 @@ Proof.
     rewrite shape_log_event in Hs. split; [exact Hs|]. split; [intros z Hz; rewrite Hg, Hz; auto|].
     repeat split; simpl; repeat dmatch; reflexivity.
 Qed.
+
+Lemma resume_mid_inv : forall s wi sr r l,
+  post_inv s -> s_status s = SWaiting -> waiting_run s = Some wi ->
+  l_cur l = Some wi -> l_exit l = None ->
+  mid_inv (apply_resume (with_session {| session_ := s; sprint_ := empty_sprint |} (fun s => set_status s SActive)) wi sr r) l wi None.
+Proof.
+  intros s wi sr r l [[Hwf Hex] [Hpu Hpost]] Hst Hwr Hc He. rewrite Hst in Hpost.
+  destruct Hpost as (w & Hw & Huniq & Hact). rewrite Hwr in Hw. inversion Hw; subst w. clear Hw.
+  destruct (waiting_run_shape _ _ Hwr) as (zw & Hzw & Hzs).
+  set (x0 := with_session {| session_ := s; sprint_ := empty_sprint |} (fun s => set_status s SActive)).
+  destruct (apply_resume_shape x0 wi sr r) as (g & Hs & Hg & Hst1 & Hpu1 & _).
+  change (shape (session_ x0)) with (shape s) in Hs.
+  assert (Hgw : g zw = z_status RActive zw \/ g zw = z_exit RExpired zw) by (apply Hg; exact Hzs).
+  (* at wi only the status/exited change, described by g zw *)
+  set (g' := fun z : shp => if sh_exited (g zw) then z_exit RExpired z else z_status RActive z).
+  assert (Hs' : shape (session_ (apply_resume x0 wi sr r)) = update_nth (shape s) wi g').
+  { rewrite Hs. eapply update_nth_at; [exact Hzw|]. unfold g'.
+    assert (Hxw : sh_exited zw = false) by (rewrite (Hex _ _ Hzw), Hzs; reflexivity).
+    destruct Hgw as [E|E]; rewrite E; simpl; rewrite ?Hxw; reflexivity. }
+  assert (Hg'p : forall z, sh_parent (g' z) = sh_parent z) by (intros z; unfold g'; destruct (sh_exited (g zw)); reflexivity).
+  assert (Hg'w : forall z, sh_status (g' z) <> RWaiting) by (intros z; unfold g'; destruct (sh_exited (g zw)); simpl; discriminate).
+  constructor; rewrite ?Hs'.
+  - constructor; rewrite Hs'.
+    + apply wf_parents_update; auto.
+    + apply exited_ok_update; auto. intros z Hz. rewrite Hzw in Hz. inversion Hz; subst.
+      unfold g'. destruct (sh_exited (g z)) eqn:E; simpl; auto.
+      rewrite (Hex _ _ Hzw), Hzs. reflexivity.
+  - rewrite Hst1. reflexivity.
+  - intros i z Hi. destruct (Nat.eq_dec wi i) as [<-|Hne].
+    + rewrite nth_error_update_nth_eq, Hzw in Hi. inversion Hi; subst. apply Hg'w.
+    + rewrite nth_error_update_nth_neq in Hi by auto. intros C. apply Hne. symmetry. eapply Huniq; eauto.
+  - exact Hc.
+  - rewrite update_nth_length. apply nth_error_Some. congruence.
+  - intros i z Hi Ha. destruct (Nat.eq_dec i wi) as [->|Hne]; [left; reflexivity|right].
+    rewrite nth_error_update_nth_neq in Hi by auto.
+    assert (Hpar : parent_of (update_nth (shape s) wi g') wi = parent_of (shape s) wi).
+    { unfold parent_of. rewrite nth_error_update_nth_eq, Hzw. simpl. apply Hg'p. }
+    rewrite Hpar. apply achain_update_above; auto.
+    + intros p Ep. unfold parent_of in Ep. rewrite Hzw in Ep. eauto.
+    + eapply Hact; eauto.
+  - rewrite Hpu1. exact Hpu.
+  - exact He.
+  - intros C; contradiction.
+Qed.
+
+Theorem resume_post : forall a s r tmo x',
+  post_inv s -> resume_session a s r tmo = Resumed (ROk x') ->
+  post_inv (session_ x') /\ sess_frame s (session_ x').
+Proof.
+  intros a s r tmo x' Hpost. unfold resume_session.
+  destruct (sstatus_eqb (s_status s) SWaiting) eqn:Est; simpl; [|discriminate].
+  apply sstatus_eqb_true in Est.
+  destruct (waiting_run s) as [wi|] eqn:Ewr; [|discriminate].
+  assert (Hfs : forall c, post_inv (session_ (fail_session {| session_ := s; sprint_ := empty_sprint |} wi c)) /\
+                          sess_frame s (session_ (fail_session {| session_ := s; sprint_ := empty_sprint |} wi c))).
+  { intros c. destruct Hpost as [Hc [Hp _]]. split; [apply fail_session_post; auto|repeat split]. }
+  destruct (match get_run s wi with
+            | Some rn => match get_flow a (r_flow rn) with Some _ => false | None => true end
+            | None => true end).
+  { intros H; inversion H; subst; apply Hfs. }
+  destruct (Z.of_nat (count_waits s) >=? max_resumes (a_opts a))%Z.
+  { intros H; inversion H; subst; apply Hfs. }
+  destruct (path_location a s wi) as [[pos n]|].
+  2:{ intros H; inversion H; subst; apply Hfs. }
+  destruct (n_router n) as [[[w|] rres rcats rcases rdef]|];
+    try (intros H; inversion H; subst; apply Hfs).
+  destruct (negb (accepts w r)); [discriminate|].
+  cbv zeta.
+  set (x1 := apply_resume (with_session {| session_ := s; sprint_ := empty_sprint |} (fun s => set_status s SActive)) wi (Some (wi, pos)) r).
+  assert (M : forall l, l_cur l = Some wi -> l_exit l = None -> mid_inv x1 l wi None).
+  { intros l Hc He. apply resume_mid_inv; auto. }
+  assert (F1 : frame {| session_ := s; sprint_ := empty_sprint |} x1).
+  { unfold x1. destruct (apply_resume_shape (with_session {| session_ := s; sprint_ := empty_sprint |} (fun s => set_status s SActive)) wi (Some (wi, pos)) r)
+      as (g & _ & _ & _ & _ & F). exact F. }
+  pose proof (find_resume_exit_shape a x1 wi (is_timeout r) tmo) as Hfre.
+  destruct (find_resume_exit a x1 wi (is_timeout r) tmo) as [x2 e op|x2|x2|]; try contradiction.
+  - intros H. inversion H as [Hc]. clear H.
+    set (l0 := {| l_cur := Some wi; l_node := None; l_exit := None; l_operand := []; l_step := None; l_steps := 0%Z; l_trigger := false |}).
+    assert (HL : loop_inv x2 {| l_cur := Some wi; l_node := Some (match get_run s wi with Some rn => r_flow rn | None => 0 end, n_id n);
+                                l_exit := e; l_operand := op; l_step := Some (wi, pos); l_steps := 0%Z; l_trigger := false |} /\ frame x1 x2).
+    { destruct Hfre as [[Hss Hact]|[-> Hfsh]].
+      - split; [|destruct Hss; assumption]. eapply mid_same; [apply (M l0); reflexivity|exact Hss|reflexivity|].
+        simpl. intros He. rewrite <- status_at_st_at. apply Hact. exact He.
+      - split; [|destruct Hfsh; assumption]. eapply mid_fail_cur; [apply (M l0); reflexivity|exact Hfsh|reflexivity|reflexivity]. }
+    destruct HL as [HL F2]. destruct (cuw_post _ _ _ _ _ HL Hc) as [P F3]. split; [exact P|].
+    eapply sess_frame_trans; [exact F1|]. eapply sess_frame_trans; [exact F2|exact F3].
+  - subst x2. intros H; inversion H; subst. split.
+    + apply fail_session_post.
+      * apply (mi_core _ _ _ _ (M {| l_cur := Some wi; l_node := None; l_exit := None; l_operand := []; l_step := None; l_steps := 0%Z; l_trigger := false |} eq_refl eq_refl)).
+      * apply (mi_pushed _ _ _ _ (M {| l_cur := Some wi; l_node := None; l_exit := None; l_operand := []; l_step := None; l_steps := 0%Z; l_trigger := false |} eq_refl eq_refl)).
+    + eapply sess_frame_trans; [exact F1|]. repeat split.
+Qed.
+
+(* ================================================================================================== *)
+(* C01, clauses 1, 2 (runs) and 4, for every history                                                   *)
+(* ================================================================================================== *)
+
+(* the sessions an engine produces: started by a trigger, then resumed any number of times - each call
+   against ANY asset store (so also one that changed between the calls); a rejected resume leaves the
+   session as it is and therefore adds nothing *)
+Inductive reachable : session -> Prop :=
+| reach_start : forall a t f x, start a t f = ROk x -> reachable (session_ x)
+| reach_resume : forall a s r tmo x, reachable s -> resume_session a s r tmo = Resumed (ROk x) -> reachable (session_ x).
+
+Lemma reachable_post : forall s, reachable s -> post_inv s.
+Proof.
+  induction 1.
+  - eapply start_post; eauto.
+  - eapply resume_post; eauto.
+Qed.
+
+(* run i is run w or one of its ancestors *)
+Inductive ancestor (rs : list run) : nat -> nat -> Prop :=
+| anc_parent : forall w r p, nth_error rs w = Some r -> r_parent r = Some p -> ancestor rs w p
+| anc_trans : forall w r p i, nth_error rs w = Some r -> r_parent r = Some p -> ancestor rs p i -> ancestor rs w i.
+
+Lemma anc_ancestor : forall s o i, anc (shape s) o i -> forall w r, nth_error (s_runs s) w = Some r -> r_parent r = o -> ancestor (s_runs s) w i.
+Proof.
+  intros s o i H. induction H; intros w r Hw Hp.
+  - eapply anc_parent; eauto.
+  - rewrite nth_error_shape in H. destruct (nth_error (s_runs s) p) as [rp|] eqn:Erp; inversion H; subst.
+    eapply anc_trans; eauto.
+Qed.
+
+(* the well-formedness of C01 that concerns statuses (written from the statement):
+   - the session is waiting, completed or failed;
+   - it is waiting exactly when exactly one run is waiting, and then every active run is an ancestor of that run;
+   - otherwise no run is active or waiting;
+   - exited_on is set exactly for completed, failed and expired runs;
+   and two facts the statement presupposes: parents precede their children, nothing is left pushed *)
+Record status_wellformed (s : session) : Prop := {
+  swf_settled : s_status s = SWaiting \/ s_status s = SCompleted \/ s_status s = SFailed;
+  swf_waiting : s_status s = SWaiting <->
+                exists w rw, nth_error (s_runs s) w = Some rw /\ r_status rw = RWaiting /\
+                             forall j rj, nth_error (s_runs s) j = Some rj -> r_status rj = RWaiting -> j = w;
+  swf_active : forall w rw i ri, s_status s = SWaiting -> nth_error (s_runs s) w = Some rw -> r_status rw = RWaiting ->
+               nth_error (s_runs s) i = Some ri -> r_status ri = RActive -> ancestor (s_runs s) w i;
+  swf_finished : s_status s <> SWaiting ->
+                 forall i ri, nth_error (s_runs s) i = Some ri -> r_status ri <> RActive /\ r_status ri <> RWaiting;
+  swf_exited : forall i ri, nth_error (s_runs s) i = Some ri ->
+               (r_exited ri = true <-> r_status ri = RCompleted \/ r_status ri = RFailed \/ r_status ri = RExpired);
+  swf_parents : forall i ri p, nth_error (s_runs s) i = Some ri -> r_parent ri = Some p -> (p < i)%nat;
+  swf_pushed : s_pushed s = None
+}.
+
+Lemma post_inv_wellformed : forall s, post_inv s -> status_wellformed s.
+Proof.
+  intros s [[Hwf Hex] [Hpu Hpost]].
+  assert (Hsh : forall i ri, nth_error (s_runs s) i = Some ri -> nth_error (shape s) i = Some (shp_of ri)).
+  { intros i ri H. rewrite nth_error_shape, H. reflexivity. }
+  constructor.
+  - destruct (s_status s); auto; contradiction.
+  - split.
+    + intros Hst. rewrite Hst in Hpost. destruct Hpost as (w & Hw & Hu & _).
+      destruct (waiting_run_from_some _ _ _ Hw) as (rw & Hrw & Hrs & _ & _). rewrite Nat.sub_0_r in Hrw.
+      exists w, rw. repeat split; auto. intros j rj Hj Hjs. eapply Hu; [apply Hsh; exact Hj|exact Hjs].
+    + intros (w & rw & Hrw & Hrs & _). destruct (s_status s) eqn:Est; auto; try contradiction;
+        exfalso; destruct (Hpost _ _ (Hsh _ _ Hrw)) as [_ C]; apply C; exact Hrs.
+  - intros w rw i ri Hst Hrw Hrs Hri Hra. rewrite Hst in Hpost. destruct Hpost as (w' & Hw & Hu & Ha).
+    assert (w = w') by (eapply Hu; [apply Hsh; exact Hrw|exact Hrs]). subst w'.
+    pose proof (Ha _ _ (Hsh _ _ Hri) Hra) as Hc. apply achain_anc in Hc.
+    eapply anc_ancestor; [exact Hc|exact Hrw|].
+    unfold parent_of. rewrite (Hsh _ _ Hrw). reflexivity.
+  - intros Hst i ri Hri. destruct (s_status s) eqn:Est; try contradiction; try congruence;
+      apply (Hpost _ _ (Hsh _ _ Hri)).
+  - intros i ri Hri. pose proof (Hex _ _ (Hsh _ _ Hri)) as H. simpl in H. rewrite H.
+    destruct (r_status ri); simpl; split; auto; try discriminate; intros [C|[C|C]]; discriminate.
+  - intros i ri p Hri Hp. eapply Hwf; [apply Hsh; exact Hri|exact Hp].
+  - exact Hpu.
+Qed.
+
+Theorem reachable_wellformed : forall s, reachable s -> status_wellformed s.
+Proof. intros s H. apply post_inv_wellformed, reachable_post, H. Qed.
+
+(* and one step of it, for any session that satisfies the invariant (e.g. one read back from storage) *)
+Theorem wellformed_after_start : forall a t f x, start a t f = ROk x -> status_wellformed (session_ x).
+Proof. intros. eapply reachable_wellformed, reach_start; eauto. Qed.
